@@ -24,15 +24,15 @@ def orc {α} (what : String) : Option α → Except PyErr α
 /-- `prepare_label(s, convert_unicode, to_snake_case)` -/
 def prepareLabel (o : LabelOracles) (blacklist : List String) (convertUnicode toSnake : Bool) (s : String) :
     Except PyErr String := do
-  let s ← if convertUnicode then orc "unidecode" (o.unidecode s) else pure s
-  let s ← orc "stripW" (o.stripW s)
+  let s ← if convertUnicode then orc ("unidecode " ++ s) (o.unidecode s) else pure s
+  let s ← orc ("stripW " ++ s) (o.stripW s)
   match s.toList with
   | [] => .error .indexError
   | c :: rest =>
     let az ← (if c.toNat < 128 then pure (decide ('a' ≤ c.toLower ∧ c.toLower ≤ 'z')) else orc "lowerAz" (o.lowerAz c))
     let s := if !az && decide ('0' ≤ c ∧ c ≤ '9')
              then onesTable.getD (c.toNat - 48) "" ++ "_" ++ String.ofList rest else s
-    let s ← if toSnake then orc "underscore" (o.underscore s) else pure s
+    let s ← if toSnake then orc ("underscore " ++ s) (o.underscore s) else pure s
     pure (if blacklist.contains s then s ++ "_" else s)
 
 /-- Python `a in b` for strings: `a` is a (contiguous) substring of `b` -/
